@@ -304,6 +304,13 @@ func vC06Gen(r *vRand, f *vFsm, idx uint64) (*proto.RaftLog, vM) {
 				}
 			}
 			kind := r.intn(3)
+			if kind == 0 && len(isr) > 0 && r.intn(4) == 0 {
+				// the precondition check of ShrinkISR only asks for the partition to exist: any member can be
+				// removed, the leader included, down to an empty in-sync set
+				rep := isr[r.intn(len(isr))]
+				return &proto.RaftLog{Op: proto.Op_SHRINK_ISR, ShrinkISROp: &proto.ShrinkISROp{Stream: name, Partition: pid, ReplicaToRemove: rep, Leader: leader, LeaderEpoch: lep}},
+					vM{"op": "shrink", "s": name, "p": pid, "r": rep}
+			}
 			switch {
 			case kind == 0 && len(others) > 0:
 				rep := others[r.intn(len(others))]
@@ -442,6 +449,12 @@ var vC06Corpus = []vC06Script{
 	{ops: []vM{{"op": "create", "s": "s0", "n": 1, "replicas": []string{"a"}}, {"op": "gcreate", "g": "g0", "coord": "a", "c": "c0", "ss": []string{"s0"}},
 		{"op": "join", "g": "g0", "c": "c1", "ss": []string{"s0"}}, {"op": "join", "g": "g0", "c": "c2", "ss": []string{"s0"}},
 		{"op": "leave", "g": "g0", "c": "c0"}}, restarts: [][2]int{{4, 4}, {4, 5}, {3, 5}, {0, 5}}},
+	// a member that owns nothing leaves; snapshot; a subscribed stream is deleted: nothing of the departed member
+	// may be left in the live server's memory that a rebuilt server does not have
+	{ops: []vM{{"op": "create", "s": "s0", "n": 1, "replicas": []string{"a"}}, {"op": "create", "s": "s1", "n": 2, "replicas": []string{"b"}},
+		{"op": "gcreate", "g": "g0", "coord": "a", "c": "c0", "ss": []string{"s0", "s1"}}, {"op": "join", "g": "g0", "c": "c1", "ss": []string{"s0"}},
+		{"op": "leave", "g": "g0", "c": "c1"}, {"op": "delete", "s": "s1"}, {"op": "join", "g": "g0", "c": "c2", "ss": []string{"s0"}}},
+		restarts: [][2]int{{5, 5}, {5, 7}, {4, 7}, {0, 7}}},
 	// delete and re-create while the server is down
 	{ops: []vM{{"op": "create", "s": "s2", "n": 1, "replicas": []string{"a"}}, {"op": "delete", "s": "s2"}, {"op": "create", "s": "s2", "n": 2, "replicas": []string{"b"}}}, restarts: [][2]int{{0, 1}, {1, 1}, {0, 3}}},
 }
